@@ -20,7 +20,7 @@ ASSUMPTIONS = ['vf.ref.armor cleartext canonicalisation follows RFC 4880 7.1 (tr
                'a lone CR is not treated as a line ending (RFC 4880 does not define it as one)']
 MIN_COUNTERS = {'quick': {'texts': 700, 'pgpy_made_read_back': 700, 'pgpy_made_ref_verified': 600, 'ref_made_pgpy_verified': 600, 'dash_lines_checked': 500},
                 'thorough': {'texts': 20000}}
-BUDGET = {'quick': (260, 800), 'thorough': (1800, 3600)}
+BUDGET = {'quick': (600, 1500), 'thorough': (1800, 3600)}
 TECHNIQUE = 'runtime monitoring: differential reference-model monitor (independent cleartext framework + verifier) + GnuPG second oracle'
 
 ALPHABET = ['-', '- ', '-----BEGIN PGP SIGNATURE-----', '-----BEGIN PGP SIGNED MESSAGE-----', 'From here', '', 'a', 'trailing space ', 'trailing tab\t', 'mixed \t ',
